@@ -60,15 +60,18 @@ Record vstate := mkS {
 Definition init_state : vstate := mkS 0 1 None.
 
 Inductive event :=
-| EvProposal (p : proposal) (own : option ownprop)
+| EvProposal (p : proposal) (own : option ownprop) (sent : bool)
     (* a ProposeMsg is dispatched to the synchronizer's handler *)
-| EvTimeout (tv : view) (si_ok : bool) (si_view : view) (own : option ownprop)
+| EvTimeout (tv : view) (si_ok : bool) (si_view : view) (own : option ownprop) (sent : bool)
     (* TimeoutEvent{tv}; (si_ok, si_view) = VerifySyncInfo(ViewStates.SyncInfo()) at that moment *)
-| EvNewView (si_ok : bool) (si_view : view) (own : option ownprop).
+| EvNewView (si_ok : bool) (si_view : view) (own : option ownprop) (sent : bool).
     (* NewViewMsg; (si_ok, si_view) = VerifySyncInfo of its sync info *)
+(* [sent] = the result of handing a vote signed during this invocation to the network
+   (Aggregator.Aggregate / Disseminator.Disseminate, i.e. core.Sender.Vote): false when the send
+   returns an error (e.g. the next leader is not in the replica table yet). *)
 
 Definition own_of (e : event) : option ownprop :=
-  match e with EvProposal _ o | EvTimeout _ _ _ o | EvNewView _ _ o => o end.
+  match e with EvProposal _ o _ | EvTimeout _ _ _ o _ | EvNewView _ _ o _ => o end.
 
 Definition alpha : view := 10.
 
@@ -97,8 +100,11 @@ Section Replica.
     else if negb (p_agg_ok p && p_qc_ok p) then false
     else p_sender p =? leader (p_view p).
 
-  (* Voter.Vote: sign, then remember the view. *)
-  Definition vote (st : vstate) (p : proposal) : vstate * list sig :=
+  (* Voter.Vote: sign, then remember the view.  The vote is handed to the network afterwards
+     (OnValidPropose: Aggregate; Propose: Disseminate).  Whether that succeeds ([sent]) is
+     reported to the caller and logged, but the signature exists: the view stays voted in. *)
+  Definition vote (st : vstate) (p : proposal) (sent : bool) : vstate * list sig :=
+    (* [sent] is deliberately unused: both outcomes of the send leave the same state *)
     (mkS (p_view p) (cur_view st) (last_to st), [SignVote p]).
 
   (* Voter.StopVoting *)
@@ -110,12 +116,13 @@ Section Replica.
      when the certified block cannot be found, which Verify has just excluded, so it never
      prevents the vote. *)
   Definition verify_then_vote (vf : vstate -> proposal -> bool) (st : vstate) (p : proposal)
-    : vstate * list sig :=
-    if vf st p then vote st p else (st, []).
+             (sent : bool) : vstate * list sig :=
+    if vf st p then vote st p sent else (st, []).
 
   (* Synchronizer.advanceView on a sync info whose VerifySyncInfo result is (ok, v). *)
   Definition advance_with (vf : vstate -> proposal -> bool)
-             (st : vstate) (ok : bool) (v : view) (own : option ownprop) : vstate * list sig :=
+             (st : vstate) (ok : bool) (v : view) (own : option ownprop) (sent : bool)
+    : vstate * list sig :=
     if negb ok then (st, [])
     else if v <? cur_view st then (st, [])
     else
@@ -124,7 +131,7 @@ Section Replica.
       if leader nv =? self then
         match own with
         | None => (st1, [])                       (* CreateProposal failed: nothing to propose *)
-        | Some o => verify_then_vote vf st1 (mk_own self nv o)
+        | Some o => verify_then_vote vf st1 (mk_own self nv o) sent
         end
       else (st1, []).
 
@@ -134,13 +141,14 @@ Section Replica.
     else if p_qc_ok p then (true, p_qc_view p) else (false, 0).
 
   Definition handle_proposal (vf : vstate -> proposal -> bool)
-             (st : vstate) (p : proposal) (own : option ownprop) : vstate * list sig :=
+             (st : vstate) (p : proposal) (own : option ownprop) (sent : bool)
+    : vstate * list sig :=
     let '(ok, v) := qc_sync p in
-    let '(st1, out1) := advance_with vf st ok v own in
+    let '(st1, out1) := advance_with vf st ok v own sent in
     if cur_view st1 + alpha <? p_view p then (st1, out1)         (* dropped: too far ahead *)
     else if cur_view st1 <? p_view p then (st1, out1)            (* delayed until a view change *)
     else
-      let '(st2, out2) := verify_then_vote vf st1 p in
+      let '(st2, out2) := verify_then_vote vf st1 p sent in
       (st2, out1 ++ out2).
 
   (* LocalTimeoutRule: what is signed for a timeout of view v *)
@@ -152,29 +160,29 @@ Section Replica.
      (A quorum of timeouts cannot come from the own message alone; timeouts of other replicas
      are handled by the collector and sign nothing.) *)
   Definition timeout_body (vf : vstate -> proposal -> bool)
-             (st : vstate) (si_ok : bool) (si_view : view) (own : option ownprop)
+             (st : vstate) (si_ok : bool) (si_view : view) (own : option ownprop) (sent : bool)
     : vstate * list sig :=
     let cv := cur_view st in
     let st1 := stop_voting (mkS (last_voted st) cv (Some cv)) cv in
-    let '(st2, out2) := advance_with vf st1 si_ok si_view own in
+    let '(st2, out2) := advance_with vf st1 si_ok si_view own sent in
     (st2, timeout_sigs cv ++ out2).
 
   Definition handle_timeout (vf : vstate -> proposal -> bool)
              (st : vstate) (tv : view) (si_ok : bool) (si_view : view) (own : option ownprop)
-    : vstate * list sig :=
+             (sent : bool) : vstate * list sig :=
     if negb (cur_view st =? tv) then (st, [])                    (* stale timer event *)
     else match last_to st with
          | Some lt => if lt =? cur_view st then (st, [])         (* resend the previous message *)
-                      else timeout_body vf st si_ok si_view own
-         | None => timeout_body vf st si_ok si_view own
+                      else timeout_body vf st si_ok si_view own sent
+         | None => timeout_body vf st si_ok si_view own sent
          end.
 
   Definition step_with (vf : vstate -> proposal -> bool) (st : vstate) (e : event)
     : vstate * list sig :=
     match e with
-    | EvProposal p own => handle_proposal vf st p own
-    | EvTimeout tv ok v own => handle_timeout vf st tv ok v own
-    | EvNewView ok v own => advance_with vf st ok v own
+    | EvProposal p own sent => handle_proposal vf st p own sent
+    | EvTimeout tv ok v own sent => handle_timeout vf st tv ok v own sent
+    | EvNewView ok v own sent => advance_with vf st ok v own sent
     end.
 
   Fixpoint run_with (vf : vstate -> proposal -> bool) (st : vstate) (es : list event)
